@@ -115,6 +115,8 @@ def judge_v3(op, g, sp, out, full):
         out.add("C15", "repeating the queries on the same object gave different results")
     if "0" in g.get("vq", ""):
         out.add("C14", "a lower-level view gives different results after the higher level was queried: vq=%s" % g.get("vq"))
+    if g.get("fq", "1") != "1":
+        out.add("C09", "the metric fields read after the object was queried are not the ones read before (they no longer are what the vector says)")
     if full:
         judge_state_v3(op, g, out)
     if g.get("r") != "1" or sp.get("acc") != "1":
@@ -271,6 +273,8 @@ def judge_v2(op, g, sp, out, full):
         out.add("C15", "repeating the queries on the same object gave different results")
     if "0" in g.get("vq", ""):
         out.add("C14", "a lower-level view gives different results after the higher level was queried: vq=%s" % g.get("vq"))
+    if g.get("fq", "1") != "1":
+        out.add("C09", "the metric fields read after the object was queried are not the ones read before (they no longer are what the vector says)")
     if full:
         judge_state_v2(op, g, out)
     if g.get("r") != "1" or sp.get("acc") != "1":
